@@ -68,9 +68,25 @@ def ctrlpoints(draw, n, dim=None, values=None):
         dim = draw(st.sampled_from([0, 0, 1, 2, 2, 3]))
     values = values or small_fracs()
     if dim == 0:
-        return draw(st.lists(values, min_size=n, max_size=n))
-    return draw(st.lists(st.lists(values, min_size=dim, max_size=dim),
-                         min_size=n, max_size=n))
+        pts = draw(st.lists(values, min_size=n, max_size=n))
+    else:
+        pts = draw(st.lists(st.lists(values, min_size=dim, max_size=dim), min_size=n, max_size=n))
+    # structural corners of the control polygon (one case in five): repeated neighbours, closed polygon,
+    # collinear / arithmetic progression, all points equal
+    pattern = draw(st.sampled_from(["generic"] * 8 + ["repeat", "closed", "collinear", "equal"]))
+    if pattern == "repeat" and n >= 2:
+        i = draw(st.integers(1, n - 1))
+        pts[i] = pts[i - 1]
+    elif pattern == "closed" and n >= 3:
+        pts[-1] = pts[0]
+    elif pattern == "collinear" and n >= 3:
+        if dim == 0:
+            pts = [pts[0] + (pts[1] - pts[0]) * i for i in range(n)]
+        else:
+            pts = [[a + (b - a) * i for a, b in zip(pts[0], pts[1])] for i in range(n)]
+    elif pattern == "equal":
+        pts = [pts[0]] * n if dim == 0 else [list(pts[0]) for _ in range(n)]
+    return pts
 
 
 def pos_weights(n):
@@ -83,8 +99,10 @@ def pos_weights(n):
 
 @st.composite
 def curves(draw, pmin=0, pmax=4, kmax=4, rational=None, dim=None, nums=("frac",),
-           interval=None, grid=None, degree=None, values=None):
+           interval=None, grid=None, degree=None, values=None, regimes=None):
     """A curve case dict {'U','p','P','w','num'}."""
+    if regimes is None:
+        regimes = "std" if interval is None and values is None else False  # callers that fix interval / values keep them
     U, p = draw(knotvectors(pmin, pmax, kmax, interval, grid, degree=degree))
     n = len(U) - p - 1
     P = draw(ctrlpoints(n, dim, values))
@@ -92,6 +110,16 @@ def curves(draw, pmin=0, pmax=4, kmax=4, rational=None, dim=None, nums=("frac",)
         rational = draw(st.booleans())
     w = draw(pos_weights(n)) if rational else None
     num = draw(st.sampled_from(list(nums)))
+    if regimes and num in ("frac", "fracint") and draw(st.integers(0, 7)) == 0:
+        # numeric regimes, exact profile only: knots around +-1e6, very short / very long parameter intervals,
+        # control points around 1e8 or 1e-8 (float profiles stay well conditioned on purpose)
+        a0, sc = draw(st.sampled_from([(F(10 ** 6), F(1)), (F(-10 ** 6), F(1000)), (F(0), F(1, 1000)), (F(0), F(10 ** 5))]))
+        U = [a0 + sc * u for u in U]
+        # tiny control points only on request ("all"): operations that accept a removal within the library's
+        # absolute 1e-9 tolerance (clean, knot_remove, degree_decrease, join, derivative) legitimately smooth them
+        ps = draw(st.sampled_from([F(1), F(1), F(10 ** 8)] + ([F(1, 10 ** 8), F(1, 10 ** 11)] if regimes == "all" else [])))
+        if ps != 1:
+            P = [x * ps for x in P] if not isinstance(P[0], list) else [[c * ps for c in x] for x in P]
     return {"U": U, "p": p, "P": P, "w": w, "num": num}
 
 
